@@ -632,7 +632,7 @@ def euler_to_u(phi1, PHI, phi2):
 def _arctan2(y, x):
     """Modified arctan function used locally in u_to_euler().
     """
-    tol = 1e-8
+    tol = 1e-8*max(np.abs(x), np.abs(y))
     if np.abs(x)<tol: x = 0
     if np.abs(y)<tol: y = 0
 
